@@ -4,6 +4,7 @@ package main
 
 import (
 	"fmt"
+	"go/token"
 	"go/types"
 	"os"
 	"sort"
@@ -78,6 +79,14 @@ func checkNodeLocal(r *Run, reach map[*ssa.Function]bool, par map[*ssa.Function]
 		if u, ok := v.(*ssa.UnOp); ok {
 			if g, ok := u.X.(*ssa.Global); ok && g.Pkg != nil && g.Pkg.Pkg.Path() == Mod+"/identity" && g.Name() == "isETHWitness" {
 				return "node role: ETH witness"
+			}
+			// a field of the node's logger read outside the log package (e.g. a new level-test helper dissolved into its caller)
+			if fa, ok := u.X.(*ssa.FieldAddr); ok && u.Op == token.MUL {
+				if n := namedOf(derefT(fa.X.Type())); n != nil && n.Obj().Pkg() != nil && n.Obj().Pkg().Path() == Mod+"/log" && n.Obj().Name() == "Logger" {
+					if pk := fnPkg(u.Parent()); pk != nil && pk.Path() != Mod+"/log" {
+						return "node log configuration (Logger." + fieldName(fa.X.Type(), fa.Field) + ")"
+					}
+				}
 			}
 		}
 		return ""
